@@ -150,16 +150,18 @@ fn hostile_pool() -> Vec<V> {
     let mut p = kind_pool();
     p.insert(0, V::Undef);
     // Sizes are kept small on purpose: generated programs nest loops over the same name three or four deep, and a
-    // 5000-character string there is 10^11 iterations of legitimate work that a CPU watchdog cannot tell from a hang
+    // 5000-character string (or a 300-element array) there is 10^9..10^11 iterations of legitimate work that a CPU watchdog cannot tell from a hang
     // (it once raised `C07/hang/hostile-context` on the unchanged tree: a false alarm of the workload, see DESIGN §12)
-    p.push(V::Str("x".repeat(48)));
-    p.push(V::Arr((0..40).map(|i| V::Str(format!("e{i}"))).collect()));
-    p.push(V::Map((0..40).map(|i| (K::Str(format!("k{i}")), V::I64(i))).collect()));
+    p.push(V::Str("x".repeat(24)));
+    p.push(V::Arr((0..16).map(|i| V::Str(format!("e{i}"))).collect()));
+    p.push(V::Map((0..16).map(|i| (K::Str(format!("k{i}")), V::I64(i))).collect()));
     for v in p.iter_mut() {
-        if let V::Str(s) = v {
-            if s.chars().count() > 48 {
-                *s = s.chars().take(48).collect();
-            }
+        match v {
+            V::Str(s) | V::Safe(s) if s.chars().count() > 24 => *s = s.chars().take(24).collect(),
+            V::Arr(a) if a.len() > 16 => a.truncate(16),
+            V::Map(m) if m.len() > 16 => m.truncate(16),
+            V::Bytes(b) if b.len() > 24 => b.truncate(24),
+            _ => {}
         }
     }
     p.push(V::Map(vec![(K::Str("a".into()), V::Map(vec![(K::Str("a".into()), V::Undef), (K::Str("b".into()), V::Bytes(vec![0xff, 0xfe]))]))]));
